@@ -444,6 +444,14 @@ func Mul(a, b Term) Term {
 			return RatTerm(new(big.Rat).Mul(x, y))
 		}
 	}
+	// canonical order: literal factor first (so len*8 and 8*len are the same term)
+	if _, ok := intLit(b); ok {
+		a, b = b, a
+	} else if _, ok := realLit(b); ok {
+		if _, ok2 := realLit(a); !ok2 {
+			a, b = b, a
+		}
+	}
 	return App(a.Sort, "*", a, b)
 }
 
@@ -454,7 +462,14 @@ func RDiv(a, b Term) Term {
 	if ok1 && ok2 && y.Sign() != 0 {
 		return RatTerm(new(big.Rat).Quo(x, y))
 	}
-	return App(SReal, "/", a, b)
+	if ok2 && y.Sign() != 0 {
+		return Mul(RatTerm(new(big.Rat).Inv(y)), a)
+	}
+	// x / y as x * (1/y): products then normalise to the same monomial whatever the code's operation order
+	if ok1 && x.Cmp(big.NewRat(1, 1)) == 0 {
+		return App(SReal, "/", a, b)
+	}
+	return Mul(a, App(SReal, "/", RatTerm(big.NewRat(1, 1)), b))
 }
 
 // TDiv is Go's truncating integer division.
